@@ -66,4 +66,22 @@ TEXT["C15"] = dict(engine="verus",
          "Order independence follows because the postcondition is stated over the set of matching pairs.",
    note="Assumed: <[u8]>::eq_ignore_ascii_case spec, Ordering ==, label tie-break comparison (Vec<Label>::cmp) left unspecified (ties are free per the property). Route parsing from YAML not under contract.")
 
+TEXT["C01"] = dict(engine="verus+engineB",
+   technique="Verus contracts on Pool::{select_requested_address,select_new_address,select_address,allocate_address} over an abstract lease table + lemma over the contract; SQL statements replaced by stubs whose assumed contracts are checked bounded on real SQLite",
+   level="Unbounded deductive proof (all tables, pools, clients, clock values) that a successful allocation writes exactly one row, that of an address on which no other client has an unexpired row, "
+         "and lemma_no_double_lease: such a step preserves every unexpired binding of every other client and never creates a second binding. Errors leave the table unchanged. "
+         "The SQL statements themselves are outside any verifier: their contracts are assumed and checked exhaustively for all tables of <=2 (quick) / <=3 (thorough) rows on real SQLite (bounded, not counted as proved).",
+   note="Assumed: SQL stub contracts beyond the bound, SQLite durability (restart = same table), clock monotone < 0xF0000000, Ipv4Addr text axioms, single task holding the pool mutex. handle_discover/handle_request: see C13/C10 evidence.")
+TEXT["C09"] = dict(engine="verus+engineB",
+   technique="Verus postconditions on Pool::select_address / allocate_address (loop invariant over the client's unexpired rows) + engine B bounded on real SQLite",
+   level="Unbounded deductive proof: if the client holds an unexpired lease on an address of the pool it is served from, the result is such an address, the requested one if it holds it; "
+         "NoAssignableAddress only if every address of the pool has an unexpired row. Bounded confirmation on the real code with real SQLite (all tables <=2/<=3 rows, every pool subset, every requested address).",
+   note="Assumed: SQL stub contracts (sql_live_own_all, sql_any_own, sql_in_use, sql_upsert) beyond the engine-B bound; Ipv4Addr Display/FromStr inverse. REQUEST address choice (ciaddr else option 50): see dhcphandlers in C13 evidence when claimed.")
+TEXT["C20"] = dict(engine="engineB",
+   technique="bounded exhaustive check of the gauge and listing SQL statements through the real Pool::get_pool_metrics / get_leases on real SQLite",
+   level="BOUNDED (not a proof): for every lease table with <=2 (quick) / <=3 (thorough) rows over 2 clients and expiry in {now-100, now+100, now+200}, including the empty table: "
+         "get_pool_metrics == (|expiry > now|, |expiry <= now|) and get_leases returns exactly one entry per row with equal address, client id, start and expiry. "
+         "These functions consist of one SQL statement each, which no installed deductive verifier can reach; the bounded stand-in is the strongest check available.",
+   note="NOT decided: JSON validity of the /api/v1/leases.json body (depends on core::fmt's {:?} of arbitrary strings; outside Verus, too expensive for Kani). update_metrics gauge wiring not under contract yet.")
+
 NA = {}
